@@ -621,6 +621,9 @@ def reader_path_checksums(rng, tier, rep, hx):
                                       [4294967295, 2147483647], [4294967295, 2147483646], [4294967295, 2147483645], [4294967295, 2147483644]))
             if len(b) == gen.flen(b[0] >> 3) and rng.random() < 0.5:      # (the burst may have changed the format bits)
                 inp["chain"] = 1
+        if "chain" not in inp and len(b) == gen.flen(b[0] >> 3) and rng.random() < 0.3:
+            # two frames back to back near the beginning of a stream: the second is decoded from where the first ended
+            inp["chain"] = 1
         if rng.random() < 0.3:
             # the frame is not the first thing in the reader: other bytes come before it and the reader stands after them
             inp["prefix"] = rng.choice((1, 3, 7, 14, 29))
